@@ -177,6 +177,14 @@ pub fn c09_bv(g: &mut Gen) {
             lines.push(format!("bv A it one : B{} l n b", a));
             lines.push(format!("bv A it zero : n N{} l n", a));
         }
+        // "beyond the remainder" after items were taken from the back: the remainder is smaller than the total count
+        let zeros = (len - ones) as u64; let ones64 = ones as u64;
+        for k in 1..=3u64 {
+            let backs = vec!["b"; k as usize].join(" ");
+            if ones64 >= k { for n in [ones64 - k, ones64 - 1, ones64] { lines.push(format!("bv A it one : {} N{} l n b", backs, n)); lines.push(format!("bv A it one : n {} N{} l n", backs, n.saturating_sub(1))); } }
+            if zeros >= k { for n in [zeros - k, zeros - 1, zeros] { lines.push(format!("bv A it zero : {} N{} l n b", backs, n)); } }
+            if len as u64 >= k { for n in [len as u64 - k, len as u64 - 1] { lines.push(format!("bv A it bits : {} N{} l n b", backs, n)); lines.push(format!("bv A it bits : {} B{} l n b", vec!["n"; k as usize].join(" "), n)); } }
+        }
         for a in boundary_values(len as u64) {
             lines.push(format!("bv A it bits : N{} l n b", a));
             lines.push(format!("bv A it bits : n B{} l n b", a));
